@@ -78,7 +78,8 @@ class Engine(EngineBase):
         P = self.prop
         knobs = {"listing": rng.choice(["shuffle", "shuffle", "sorted", "reverse"]),
                  "chunk": rng.choice(["none", "split2"]), "clock": rng.choice(["inc", "coarse"])}
-        sc = {"knobs": knobs, "focus": P, "observe_handles": rng.choice(["all", "lazy", "lazy"])}
+        sc = {"knobs": knobs, "focus": P, "observe_handles": rng.choice(["all", "lazy", "lazy"]),
+              "proj_spelling": rng.choice(["plain", "plain", "plain", "dotdot", "symlink"])}
         ops = []
         if P == "C02":
             fam = prefix_family()
@@ -907,8 +908,22 @@ class Run:
 
     def op_restart(self, op):
         self.handles = []
-        self.projects = [self.signac.Project(p) for p in self.pp]
+        self.projects = [self.signac.Project(self.spelled_path(i)) for i in range(2)]
         self.probe("restart")
+
+    def spelled_path(self, i):
+        """After a restart the project may be opened through another spelling of its path."""
+        how = self.sc.get("proj_spelling", "plain")
+        p = self.pp[i]
+        if how == "dotdot":
+            return os.path.join(p, "workspace", os.pardir)
+        if how == "symlink":
+            link = self.world.p(f"link_p{i + 1}")
+            with self.world.observing():
+                if not os.path.lexists(link):
+                    O.symlink(p, link)
+            return link
+        return p
 
     def op_drop(self, op):
         if self.handles:
@@ -1008,7 +1023,7 @@ class Run:
         out = _json.loads(r.stdout.decode().strip().splitlines()[-1])
         jid = cid(hd.sp)
         if out["id"] != jid or not same(out["sp"], hd.sp) or \
-                out["path"] != os.path.join(self.pp[hd.proj], "workspace", jid):
+                os.path.realpath(out["path"]) != os.path.realpath(os.path.join(self.pp[hd.proj], "workspace", jid)):
             raise Mismatch("C04", "C04:pickle:fresh-handle-differs",
                            f"the unpickled handle describes {out}, the original denotes {hd.sp} ({jid[:8]})")
         if sub[0] == "init" or sub[0] == "doc_set":
@@ -1279,7 +1294,7 @@ class Run:
                 raise Mismatch(P, "C04:handle:id", f"{tag}: id {hd.obj.id[:8]} but denotes {hd.sp} "
                                f"({jid[:8]})", f"C04:handle:{hd.kind}:id-not-following")
             want_path = os.path.join(self.pp[hd.proj], "workspace", jid)
-            if hd.obj.path != want_path:
+            if os.path.realpath(hd.obj.path) != os.path.realpath(want_path):
                 raise Mismatch(P, "C04:handle:path", f"{tag}: path {hd.obj.path} expected {want_path}",
                                f"C04:handle:{hd.kind}:path-not-following")
             mj = self.model[hd.proj].get(jid)
